@@ -170,7 +170,7 @@ func (rr *recvRunner) run(in input) hlib.Case {
 
 func recvWorker() {
 	logrus.SetOutput(io.Discard)
-	dir, err := os.MkdirTemp("", "c03u")
+	dir, err := os.MkdirTemp(".", "c03u")
 	if err != nil {
 		fmt.Fprintln(os.Stderr, err)
 		os.Exit(3)
